@@ -178,7 +178,7 @@ theorem certVkeysFull_subset (h : Bytes) (c : Cert) (hm : h ∈ certVkeysFull c)
 theorem mem_allNativeScripts (s : NScript) (st : State) :
     s ∈ allNativeScripts st ↔ (s ∈ st.nativeScripts ∨ s ∈ st.inputScripts ∨ s ∈ st.mintScripts
       ∨ s ∈ st.withdrawalScripts ∨ s ∈ st.certScripts) := by
-  simp [allNativeScripts, or_assoc]
+  simp [allNativeScripts]
 
 /-! ## placeholder witnesses -/
 
